@@ -419,3 +419,72 @@ func VerifC15_SubsetDeepSelector() {
 	}
 	verif.Cover("end")
 }
+
+// VerifC15_SubsetEmptyValue: metadata values may be the empty string. Three
+// hosts - k1 set to "", k1 set to "a", k1 absent - one selector [k1], every
+// fallback policy, default subset {k1: ""} or {k1: "a"}, criteria k1="" or
+// k1="a": a host without the key never counts as carrying k1="" (for the
+// match, for the default subset, for HostNum), with both builders.
+func VerifC15_SubsetEmptyValue() {
+	verif.Replace("math/rand.NewSource", func(int64) rand.Source { return zzAnySource{} })
+	metas := []api.Metadata{{"k1": ""}, {"k1": "a"}, {"k2": "z"}}
+	var hs []types.Host
+	for i := 0; i < 3; i++ {
+		if verif.Choose("present", 2) == 0 && i < 2 {
+			continue // every combination of the two keyed hosts; the host without the key is always there
+		}
+		h := &zzMetaHost{meta: metas[i]}
+		h.name, h.healthy, h.weight = zzHostNames[i], true, 10
+		hs = append(hs, h)
+	}
+	n := len(hs)
+	policy := verif.Choose("fallback", 3)
+	dv := []string{"", "a"}[verif.Choose("default_value", 2)]
+	cfg := &v2.LBSubsetConfig{FallBackPolicy: uint8(policy), SubsetSelectors: [][]string{{"k1"}}, DefaultSubset: map[string]string{"k1": dv}}
+	info := &zzSubInfo{sub: NewLBSubsetInfo(cfg), st: &types.ClusterStats{LBSubSetsFallBack: &zzLBCounter{}, LBSubsetsCreated: &zzSubGauge{}}}
+	crit := []zzCriterion{{"k1", []string{"", "a"}[verif.Choose("criteria_value", 2)]}}
+	ctx := &zzSubCtx{ctx: variable.NewVariableContext(context.Background())}
+	ctx.crit = &zzCriteria{[]api.MetadataMatchCriterion{&crit[0]}}
+	count := func(kvs []zzCriterion) int {
+		k := 0
+		for _, h := range hs {
+			if zzHas(h, kvs) {
+				k++
+			}
+		}
+		return k
+	}
+	def := []zzCriterion{{"k1", dv}}
+	for variant := 0; variant < 2; variant++ {
+		var lb types.LoadBalancer
+		if variant == 0 {
+			lb = NewSubsetLoadBalancer(info, NewHostSet(hs))
+		} else {
+			lb = NewSubsetLoadBalancerPreIndex(info, NewHostSet(hs))
+		}
+		r := lb.ChooseHost(ctx)
+		want := 0
+		switch {
+		case count(crit) > 0:
+			verif.Assert(r != nil && zzHas(r, crit), "subset match must return a host carrying the criteria pair (a host without the key does not carry an empty value)")
+			want = count(crit)
+			verif.Cover("matched")
+		case policy == 0:
+			verif.Assert(r == nil, "fallback none must not return a host")
+		case policy == 1:
+			verif.Assert(r != nil, "fallback any-endpoint must return some host")
+			want = n
+		default:
+			if count(def) > 0 {
+				verif.Assert(r != nil && zzHas(r, def), "fallback default-subset must return a host of the default subset (a host without the key is not in it)")
+			} else {
+				verif.Assert(r == nil, "empty default subset must not return a host")
+			}
+			want = count(def)
+			verif.Cover("fallback-default")
+		}
+		verif.Assert(lb.HostNum(ctx.crit) == want, "HostNum is not the size of the matched subset / fallback host set")
+		verif.Assert(lb.IsExistsHosts(ctx.crit) == (want > 0), "IsExistsHosts disagrees with the matched subset / fallback host set")
+	}
+	verif.Cover("end")
+}
